@@ -42,6 +42,7 @@ static void reparam_generic(opcase_t *c, rng_t *r) {
     c->ip[0] = cut;
   } else if (!strcmp(f, "inv")) {
     if (!strcmp(n, "mzd_inv_m4ri")) c->ip[0] = rng_int(r, 0, 16);
+    if (!strcmp(n, "mzd_trtri_upper_russian")) c->ip[0] = rng_int(r, 0, 12);
   }
 }
 void ops_init(void) {
